@@ -66,6 +66,7 @@ TRUSTED = [
     "parameter annotations int/float/str/bool and constant scalar defaults are believed (such parameters hold immutable values)",
     "attribute reads of input objects alias the object's storage; objects built by a repo constructor keep (at most) the constructor arguments the class stores in self",
     "assignment to a field of a @dataclass(frozen=True) instance raises FrozenInstanceError (no store)",
+    "layer (2) re-uses the symbolic inputs (setup) of the units of the other properties; the index-bound / shape side obligations of those bodies are left to the owning property's check (no safety obligation is emitted or counted here); their preconditions are inherited",
     "the alias pass itself (abstract interpreter, joins, loop fixed points, call-graph fixed point) is unverified; tools/purity_selftest.py checks it on 74 synthetic functions",
 ]
 
@@ -247,6 +248,8 @@ class FrameOf(Unit):
         self.timeout = min(10, base.timeout)
         self.solver_opts = base.solver_opts
         self._cases = cases
+        # index-bound / shape side obligations of this body on this setup are discharged by the owning property's check
+        self.side_obligations_owner = f"./check {tag} (unit {base.name})"
         for a in ("may_only_raise", "unresolved_is_failure"):
             if hasattr(base, a):
                 setattr(self, a, getattr(base, a))
@@ -438,9 +441,9 @@ def _deep_arrays(v, depth=0):
 
 def _collect_units():
     import importlib
-    units = [GyrationFrame(), ConvertConfigurationAlias()]
+    units = []
     # units of the other contract modules present in this checkout (more exist after integration)
-    for mod in ("C02", "C03", "C04", "C05", "C06", "C08", "C10", "C11", "C12", "C13", "C14", "C15", "C16", "C17"):
+    for mod in ("C03", "C13", "C04", "C05", "C16", "C06", "C11", "C15", "C17", "C14", "C10", "C02", "C08", "C12"):   # long units first
         if not os.path.exists(os.path.join(VERIF, "contracts", mod + ".py")):
             continue
         try:
@@ -453,7 +456,7 @@ def _collect_units():
             cs = list(u.cases())
             sel = _select_cases(mod, u, cs)
             units.append(FrameOf(u, mod, sel))
-    return units
+    return units + [GyrationFrame(), ConvertConfigurationAlias()]
 
 
 def _select_cases(mod, u, cs):
